@@ -7,11 +7,13 @@ consumers).  Oracle (model-free): count == number of legitimate holders computed
 node's documented meaning (unfilled partition/window, latest value of a combining node,
 unflushed collect, unfinished asynchronous consumer); never negative.
 """
-from .. import graphcheck
+from .. import asynccheck as ac, graphcheck
+from . import _async_common as A
 
 ASPECTS = ("flow", "err", "counts", "fires", "starts")
 CHECKS = ("sem", "refs")
 SIGS = ("count-mismatch", "negative-count")
+SIGS_B = ("final-count", "count-resurrected", "negative-count", "callback-missing")
 
 CORPUS = [
     {"mode": "sync", "nodes": [{"kind": "source", "ups": []}, {"kind": "partition_unique", "ups": [0], "n": 2, "key": ["modk", 2], "keep": "first"},
@@ -26,6 +28,8 @@ def run(ctx):
     ctx.audit()
     n = 300 if not ctx.thorough() else 10000
     graphcheck.run_family(ctx, n, ASPECTS, CHECKS, SIGS, corpus=CORPUS, flavours=("future", "coro", "tornado"))
+    # asynchronous holding nodes: balance at the final quiescent point, never negative, never rising after zero
+    A.sweep(ctx, n // 2, A.ALL_KINDS, ["balance"], SIGS_B, opts={"small_alphabet": True})
     ctx.coverage["rule"] = ("as C01 with a fresh reference counter on ~80% of the metadata entries; counts are read after every operation "
                             "(each is a quiescent point: the synchronous part has finished and the loop has settled). "
                             "Non-trivial: pipeline has a holding/dropping node and >= 8 flow events.")
@@ -35,5 +39,10 @@ def run(ctx):
 
 def replay(ctx, data):
     ctx.audit()
+    case = data["case"]
+    if any(op["op"] in ("advance", "settle", "jobdone") for op in case["ops"]):
+        ac.evaluate(ctx, case, ac.rerun(case), ["balance"], SIGS_B)
+        ctx.coverage["rule"] = "replay of one recorded case"
+        return
     graphcheck.replay_case(ctx, data["case"], ASPECTS, CHECKS, SIGS)
     ctx.coverage["rule"] = "replay of one recorded case"
